@@ -105,6 +105,8 @@ M("c08-invert-fch1", "C08", B, '            "fch1": self.header.fch1 + (self.hea
 M("c08-block-downsample-tsamp", "C08", BL, '            "tsamp": self.header.tsamp * tfactor,\n            "foff": self.header.foff * ffactor,', '            "tsamp": self.header.tsamp * ffactor,\n            "foff": self.header.foff * ffactor,')
 M("c08-bands-fch1", "C08", B, "        fstart = self.header.fch1 + chanstart * self.header.foff", "        fstart = self.header.fch1 + (chanstart // 2 * 2) * self.header.foff", "odd chanstart labelled one channel too high")
 M("c08-get_tim-dm", "C08", BL, "        return TimeSeries(ts, self.header.dedispersed_header(dm=self.dm))", "        return TimeSeries(ts, self.header.dedispersed_header(dm=self.header.dm))")
+M("c08-block-downsample-drops-dm", "C08", BL, "        return FilterbankBlock(new_ar, self.header.new_header(changes), self.dm)", "        return FilterbankBlock(new_ar, self.header.new_header(changes))", "original defect repaired by 9bf4f15")
+M("c08-block-normalise-drops-dm", "C08", BL, "    def _new_block(self, data: np.ndarray, header: Header) -> FilterbankBlock:\n        return FilterbankBlock(data, header, self.dm)", "    def _new_block(self, data: np.ndarray, header: Header) -> FilterbankBlock:\n        return FilterbankBlock(data, header)", "original defect repaired by 9bf4f15")
 M("c08-select-truncates", "C08", R, "        chan_start = round(float((fch1 - self.header.fch1) / self.header.foff))", "        chan_start = int(float((fch1 - self.header.fch1) / self.header.foff))", "original F08b (both readers)", count=2)
 M("c08-dedisperse-tstart", "C08", B, '                    "dm": dm,\n                    "nsamples": tim_len,\n                    "tstart": self.header.mjd_after_nsamps(start),', '                    "dm": dm,\n                    "nsamples": tim_len,\n                    "tstart": self.header.tstart,')
 M("c08-subband-fch1", "C08", B, "        new_fch1 = self.header.ftop + new_foff / 2", "        new_fch1 = self.header.fch1 + new_foff / 2", "sub-band centre off by half an input channel... outside span only for subfactor 1")
